@@ -15,6 +15,8 @@ GRAMMARS = {
     'retry': [('start', A(S(N('p', C('r')), T('x')), S(N('q', C('r')), OPT(T('y'))))), ('r', N('v', A(T('a'), T('b'))))],
     # rules WITHOUT named elements (their AST is a string or a list): typed, their model nodes must still name the rule and delimit its match
     'noname': [('start', S(REP(C('item')), OPT(C('num')), EOF_)), ('item', P('[a-z]')), ('num', S(P('[0-9]'), OPT(P('[0-9]'))))],
+    # a rule that hands on the node of another rule after consuming something itself ('-' @:num): the node names the outer rule WITH the outer rule's span
+    'passthrough': [('start', S(N('v', C('neg')), EOF_)), ('neg', A(S(T('-'), ('ovr', C('num'))), ('ovr', C('num')))), ('num', N('d', P('[0-9]')))],
     'upper': [('start', S(N('t', C('Tok')), OPT(N('u', C('tok'))))), ('Tok', N('v', P('[ab]'))), ('tok', N('w', P('[ab]')))],
 }
 
